@@ -138,17 +138,19 @@ InvariantOK(pl, res1) ==
   ELSE IF ~AllPositive(pl.res) \/ ~AllPositive(res1) THEN TRUE
   ELSE LET d0 == P!RootFloor(Ann(pl), Norm(pl, pl.res, K6))
        IN P!DBelowRoot(Ann(pl), Norm(pl, res1, K6), d0)
-(* recorded finding F7: stableswap output rounding favours the trader by up to three output units.
-   Trigger and residual: the invariant would not decrease had the pool kept three more ask units. *)
-RoundingOnly(pl, res1, a) ==
-  pl.kind = "ss" /\ AllPositive(pl.res) /\ AllPositive(res1) /\ InvariantOK(pl, [res1 EXCEPT ![a] = BAdd(@, BNat(3))])
+(* recorded finding F7: stableswap output rounding favours the trader by a few output units (at most 3 in the quick traces,
+   6 in 1 400 swaps of the thorough tier, on reserves of 10^20 units and on 0-decimals assets).
+   Trigger and residual: the invariant would not decrease had the pool kept eight more ask units. *)
+RoundingWithin(pl, res1, a, k) ==
+  pl.kind = "ss" /\ AllPositive(pl.res) /\ AllPositive(res1) /\ InvariantOK(pl, [res1 EXCEPT ![a] = BAdd(@, BNat(k))])
+RoundingOnly(pl, res1, a) == RoundingWithin(pl, res1, a, 8)
 (* recorded finding F11: the swap path's invariant D is only converged to 10^-12 tokens (10^6 units of an 18-digit
    fixed point), so on pools whose largest precision is 18 decimals the invariant can additionally move by that much.
    Trigger and residual: the invariant would not decrease had the pool kept 3 ask units plus 2 * 10^6 units of the
    pool's largest precision. *)
 ConvergenceOnly(pl, res1, a) ==
   pl.kind = "ss" /\ AllPositive(pl.res) /\ AllPositive(res1)
-  /\ LET extra == BAdd(BNat(3), BAdd(BDiv(BNat(2000000), P!Pow10(MaxDec(pl) - pl.dec[a])), One))
+  /\ LET extra == BAdd(BNat(8), BAdd(BDiv(BNat(2000000), P!Pow10(MaxDec(pl) - pl.dec[a])), One))
      IN InvariantOK(pl, [res1 EXCEPT ![a] = BAdd(@, extra)])
 (* recorded finding F13: far outside the supported range (normalised reserves skewed by more than 10^5 : 1) the invariant D
    loses precision on both paths and the operations are not refused. Trigger: that skew; residual: the invariant moves by
@@ -158,7 +160,8 @@ Skewed(pl, res) ==
 WithinRelSwap(pl, res1) ==
   pl.kind = "ss" /\ AllPositive(pl.res) /\ AllPositive(res1)
   /\ LET d0 == P!RootFloor(Ann(pl), Norm(pl, pl.res, K6)) IN P!DBelowRoot(Ann(pl), Norm(pl, res1, K6), BSub(d0, BDiv(d0, BNat(100000000))))
-F7(pl, res1, a) == IF RoundingOnly(pl, res1, a) THEN "F7" ELSE IF MaxDec(pl) >= 12 /\ ConvergenceOnly(pl, res1, a) THEN "F11"
+F7(pl, res1, a) == IF RoundingWithin(pl, res1, a, 3) THEN "F7" ELSE IF MaxDec(pl) >= 12 /\ ConvergenceOnly(pl, res1, a) THEN "F11"
+                   ELSE IF RoundingOnly(pl, res1, a) THEN "F7"
                    ELSE IF Skewed(pl, pl.res) /\ WithinRelSwap(pl, res1) THEN "F13" ELSE ""
 (* C19: the gross output against the exact solution of the invariant, tolerance = 2 output units plus the
    value of 2 offered units (taken at the larger of the 1:1 peg and the average rate of this trade) *)
@@ -289,6 +292,8 @@ JudgeRoute(s, e, p) ==
        C04_route_destinations  |-> G(good, MoneyMoves(s, p, T) /\ p.fm.pos = s.fm.pos),
        C04_route_fee_floors    |-> G(good, acc.fees),
        C03_route_invariants_non_decreasing |-> GK(followable, acc.inv, IF acc.invK THEN "F7" ELSE IF acc.invK2 THEN "F11" ELSE ""),
+       \* per-hop invariants bound the trader's proceeds only if every hop really offers what the previous hop paid out
+       C03_route_hops_offer_the_previous_proceeds |-> G(e.ok /\ n > 0, wellformed /\ Len(e.per_hop) = n /\ acc.chain /\ e.final = acc.next),
        C17_route_gated         |-> G(good, acc.gate),
        C17_route_blocked_only_by_a_swap_switch |-> G(~e.ok /\ e.err = "disabled" /\ wellformed, \E k \in 1..n : ~Pools(s)[e.hops[k].pool].sw),
        \* every executed route over pairwise distinct pools, well-formed or not: what was executed is what was quoted
